@@ -97,6 +97,59 @@ def run_stream(ctx, m, proto, vals, data, cuts, endpoints, tag):
     pmap(one, cuts)
 
 
+def run_ndjson_stream(ctx, m, proto, vals, endpoints, tag, quick):
+    """NDJSON input: the reference text and the text the generated C++ writes for the same values, cut at every byte position after the header line (and a
+    sample inside it). The format has no terminator: a cut that leaves complete lines only, after which every remaining step is a stream, IS a complete
+    (shorter) stream by the documented format - those cuts are exempt from `must fail` (the values delivered are still judged)."""
+    c = m.codec
+    sch = m.schema(proto.name)
+    lines = c.ndjson_lines(proto, sch, vals)
+    ref_docs = [json.loads(l) for l in lines]
+    texts = [("reference", ("\n".join(lines) + "\n").encode())]
+    w = rt.CppEndpoint(m, "plain").copy(proto.name, "bin", "ndjson", c.encode_stream(proto, sch, vals))
+    ctx.ev()
+    if w.rc == 0 and w.sig is None and w.out and w.out != texts[0][1]:
+        texts.append(("c++-written", w.out))
+    step_names = [sn for sn, _ in proto.steps]
+    is_stream = [isinstance(c.fq(st), S) for _, st in proto.steps]
+
+    def exempt(text, cut):
+        pre = text[:cut]
+        body = pre[:-1] if pre.endswith(b"\n") else pre
+        ls = body.split(b"\n")
+        try:
+            docs = [json.loads(x) for x in ls]
+        except ValueError:
+            return False
+        if not pre.endswith(b"\n") and text[cut:cut + 1] != b"\n":
+            return False            # a proper prefix of a line that happens to parse (cannot happen for objects, kept for safety)
+        j = -1
+        for d in docs[1:]:
+            if not isinstance(d, dict) or len(d) != 1 or list(d)[0] not in step_names:
+                return False
+            j = max(j, step_names.index(list(d)[0]))
+        return len(docs) >= 1 and all(is_stream[k] for k in range(j + 1, len(step_names)))
+
+    for src, text in texts:
+        hdr = text.index(b"\n") + 1
+        cuts = list(range(hdr, len(text))) + list(range(0, hdr, max(1, hdr // (25 if quick else 200))))
+        if len(cuts) > (500 if quick else 4000):
+            cuts = sorted(rng("C16ndcuts", tag, src).sample(cuts, 500 if quick else 4000))
+
+        def one(cut, text=text, src=src):
+            ex = exempt(text, cut)
+            for ep in endpoints:
+                r = ep.copy(proto.name, "ndjson", "ndjson", text[:cut])
+                ctx.ev()
+                ctx.count("ndjson-cut." + ep.name)
+                if ex and r.rc == 0 and r.sig is None:
+                    ctx.count("ndjson-cut.complete-by-format")
+                    r.rc = 3          # a shorter complete stream was read as such: only the delivered values are judged
+                judge_cut(ctx, m, proto, vals, ref_docs, text, cut, r, ep.name, "%s, %s NDJSON text cut at %d/%d" % (tag, src, cut, len(text)))
+            ctx.case((tag, "ndjson", src, cut))
+        pmap(one, cuts)
+
+
 def run(ctx):
     common.build_yardl()
     quick = ctx.tier == "quick"
@@ -130,6 +183,7 @@ def run(ctx):
                 rr = rng("C16cuts", key)
                 cuts = sorted(rr.sample(cuts, 900 if quick else 5000))
             run_stream(ctx, m, proto, vals, data, cuts, eps_p, "corpus %s/%s" % (key, proto.name))
+            run_ndjson_stream(ctx, m, proto, vals, [e for e in eps_p if getattr(e, "flavor", "plain") in ("plain", "asan")], "corpus %s/%s" % (key, proto.name), quick)
             ctx.sample({"model": key, "protocol": proto.name, "stream_bytes": len(data), "header_bytes": hdr, "cuts": len(cuts)})
         m.close()
 
